@@ -18,6 +18,10 @@ class IterError(Exception):
     pass
 
 
+class IterBaseError(BaseException):
+    """A failure of the input that is not an Exception (KeyboardInterrupt, SystemExit, a cancellation token)."""
+
+
 class Tasks:
     """Instrumented input iterable: counts items taken, detects re-entrant / concurrent next()."""
 
@@ -34,7 +38,7 @@ class Tasks:
     def __iter__(self):
         if self.iter_raises:
             self.log.append(("iter-raise", self.call_no, -1))
-            raise IterError("__iter__ failed")
+            raise (IterBaseError if self.iter_raises == "base" else IterError)("__iter__ failed")
         return self
 
     def __next__(self):
